@@ -80,10 +80,11 @@ def run_config(chk, config):
 
 
 def run(chk):
+    # "in builds with and without overflow/debug assertions": both assertion settings on every change
     run_config(chk, "default")
+    run_config(chk, "debug")
     if chk.tier == "thorough":
-        for cfg in ("debug", "release"):
-            run_config(chk, cfg)
+        run_config(chk, "release")
     return chk.finish(
         "proof",
         explanation="All decode entry points (Message::try_read, try_read_validate, AVP::try_read_greedy and every payload "
